@@ -52,6 +52,8 @@ def test_replay():
             print(sim.get_data_memory_entries()); continue  # compare with what the backing memory holds (see the message)
         if kind == "stats":
             print(m.get_cache_stats()); continue
+        if kind == "view":
+            sim.get_data_cache_entries(); continue
         crossing = (addr & 3) + width > 4
         try:
             if kind == "w":
@@ -92,7 +94,7 @@ def _cache_history(prop, case):
             ops.append(("reset", 0, 0, 0))
             flat = {}
             continue
-        if kind in ("table", "stats"):
+        if kind in ("table", "stats", "view"):
             ops.append((kind, 0, 0, 0))
             continue
         val = 0
